@@ -100,6 +100,10 @@ func newWorld(sc *bw.Scenario) *world {
 		if p.Rules != nil {
 			rt = *p.Rules
 			raw[".terraformignore"] = bw.PFile{Path: ".terraformignore", Kind: "file", Body: rt, Mode: 0o644}
+			if p.RulesLink {
+				raw[".terraformignore"] = bw.PFile{Path: ".terraformignore", Kind: "link", Target: "rules.ign"}
+				raw["rules.ign"] = bw.PFile{Path: "rules.ign", Kind: "file", Body: rt, Mode: 0o644}
+			}
 		}
 		rules := model.ParseIgnore(rt)
 		fl := map[string]bw.PFile{}
